@@ -191,11 +191,31 @@ func runC15(c *Ctx) {
 						if ib.K != int64(i) {
 							continue
 						}
-						tgt := ib.If.Block().Succs[ib.Idx]
-						for _, x := range tgt.Instrs {
+						// on every path of the arm the delete comes before
+						// anything that can wait (nothing but straight-line
+						// code, tests and logging in front of it)
+						reached, blocked := false, false
+						ir.WalkEdge(ib.Edge(), ir.BackEdges(fn), func(x ssa.Instruction) bool {
 							if isBuiltin("delete")(x) {
-								okDel = true
+								reached = true
+								return false
 							}
+							switch y := x.(type) {
+							case *ssa.Select, *ssa.Send, *ssa.Go, *ssa.Return:
+								blocked = true
+							case *ssa.UnOp:
+								if y.Op == token.ARROW {
+									blocked = true
+								}
+							case *ssa.Call:
+								if !isLogCall(x) && !isBuiltin("len")(x) {
+									blocked = true
+								}
+							}
+							return !blocked
+						})
+						if reached && !blocked {
+							okDel = true
 						}
 					}
 				}
